@@ -172,6 +172,9 @@ Inductive entry_input :=
 | EHsHandle (reads : list hs_read) (wfails : list N)
 | EHsInitiate (reads : list hs_read) (wfails : list N)
 | EPeersList (read : option (list peerinfo_in))
+(* discovery with all its check workers busy: [lists] concurrent PeerLists of [n] unknown entries whose dials do
+   not return, the stream context cancelled while the handlers wait behind the workers, then the dials end *)
+| EPeersListStalled (n lists : N)
 | EHandleBid (role_bidder : bool) (read : option bid_in) (allow : bool) (status : Z)
 | ESendBidReply (replies : list reply_in)
 | EApiCommitments (replies : list reply_in)
@@ -227,6 +230,7 @@ Definition panics_gen (f : fixes) (i : entry_input) : bool :=
   | EHsHandle _ _ => false
   | EHsInitiate _ _ => false
   | EPeersList _ => false
+  | EPeersListStalled _ _ => false
   | EHandleBid role read _ _ => handle_bid_panics f role read
   | ESendBidReply rs => existsb (reply_panics f) rs
   | EApiCommitments rs =>
@@ -270,7 +274,7 @@ Definition expected_result (i : entry_input) : option N :=
   | EReadHeader (FOversized | FTruncated | FEof) => Some 1
   (* end to end the result class is the liveness probe: after the hostile exchange an honest
      peer still completes its handshake and is registered (0) *)
-  | EE2EInbound _ _ | EE2EOutbound _ _ | EE2EStress _ => Some 0
+  | EE2EInbound _ _ | EE2EOutbound _ _ | EE2EStress _ | EPeersListStalled _ _ => Some 0
   | EPeerIDAddress k => if k =? 0 then Some 0 else if k =? 7 then None else Some 1
   | _ => None
   end.
@@ -285,6 +289,7 @@ Definition entry_name (i : entry_input) : string :=
   | EHsHandle _ _ => "handshake-handle"
   | EHsInitiate _ _ => "handshake-initiate"
   | EPeersList _ => "peers-list"
+  | EPeersListStalled _ _ => "peers-list"
   | EHandleBid _ _ _ _ => "handle-bid"
   | ESendBidReply _ => "send-bid-reply"
   | EApiCommitments _ => "bidder-api-commitments"
@@ -321,6 +326,7 @@ Definition hostile (i : entry_input) : bool :=
   | ESignerVerify _ _ => true
   | EHsHandle _ _ | EHsInitiate _ _ => true
   | EPeersList _ => true
+  | EPeersListStalled _ _ => true
   | EHandleBid _ read _ _ => match read with Some b => negb (bid_honest b) | None => true end
   | ESendBidReply rs | EApiCommitments rs =>
       existsb (fun r => match r with RpErr => true | RpFrame c => negb (preconf_honest c) end) rs
